@@ -1,7 +1,9 @@
 """C26 dynamic side: run every transformation on every node of a program with an option grid and, on
 TransformationError, compare the written code and a canonical view of all symbol tables before and
 after the attempt (the property itself, evaluated on the implementation)."""
+import contextlib
 import inspect
+import io
 import os
 import re
 import signal
@@ -50,7 +52,7 @@ def tree_view(root):
     """cheap structural view of the tree: class, node_str, comments, per node in walk order
     (with depth).  A change of the written code that does not change this view is not expected;
     the writer text is compared as well whenever it is available."""
-    from psyclone.psyir.nodes import Node
+    from psyclone.psyir.nodes import Directive
     out = []
 
     def rec(n, d):
@@ -58,6 +60,12 @@ def tree_view(root):
             s = n.node_str(colour=False)
         except Exception:                # pylint: disable=broad-except
             s = type(n).__name__
+        if isinstance(n, Directive):
+            # clause lists etc. that node_str() does not show
+            try:
+                s += " {" + n.begin_string() + "}"
+            except Exception:            # pylint: disable=broad-except
+                pass
         c = getattr(n, "preceding_comment", "") or ""
         ic = getattr(n, "inline_comment", "") or ""
         out.append("%d %s%s%s" % (d, s, (" !<" + c) if c else "", (" !>" + ic) if ic else ""))
@@ -122,6 +130,33 @@ def change_kind(before, after):
     if not kinds and before.text != after.text:
         kinds.append("text")
     return "+".join(kinds)
+
+
+def warm_up(root):
+    """PSy-layer trees materialise loop bounds and kernel-argument symbols lazily on the first
+    READ access (e.g. any dependence query inside a validate()).  Run read-only queries first so
+    that the baseline view is the materialised tree: only changes beyond what a read-only query
+    causes are then attributed to the rejected transformation."""
+    from psyclone.core import VariablesAccessInfo
+    from psyclone.psyir.nodes import Loop
+    from psyclone.psyir.tools import DependencyTools
+    with contextlib.redirect_stdout(io.StringIO()):
+        for _ in range(2):
+            for lp in root.walk(Loop):
+                for a in ("start_expr", "stop_expr", "step_expr"):
+                    try:
+                        getattr(lp, a)
+                    except Exception:        # pylint: disable=broad-except
+                        pass
+            try:
+                VariablesAccessInfo(root)
+            except Exception:                # pylint: disable=broad-except
+                pass
+            for lp in root.walk(Loop):
+                try:
+                    DependencyTools().can_loop_be_parallelised(lp)
+                except Exception:            # pylint: disable=broad-except
+                    pass
 
 
 # ----------------------------------------------------------------------------- paths
@@ -261,7 +296,8 @@ def attempt(inst, args, options, timeout=10):
     old = signal.signal(signal.SIGALRM, _alarm)
     signal.setitimer(signal.ITIMER_REAL, timeout)
     try:
-        inst.apply(*args, options)
+        with contextlib.redirect_stdout(io.StringIO()):
+            inst.apply(*args, options)
         return Outcome("accepted")
     except TransformationError as err:
         try:
